@@ -52,6 +52,18 @@ def stores(body, include_locals=True):
                 out.append({"bb": bi, "idx": si, "line": s["sp"][1], "lhs": l2, "tree": t2, "whole": tree,
                             "macro": s["sp"][4], "stmt": s})
         t = b["term"]
+        if t["k"] == "call":
+            c0 = mir.callee_of(t)
+            if c0 is not None and c0["name"] in df.OPASSIGN and len(t["args"]) == 2:
+                # `place op= value` on a field reached through a reference: synthesize the store
+                a0 = pv.op_tree(t["args"][0])
+                tgt = df.strip(a0)
+                if tgt[0] == "path" and tgt[1][0] in ("arg", "env"):
+                    lhs = df.canon(tgt, body)
+                    tree = ("call", "core::ops::%s" % df.OPASSIGN[c0["name"]], df.OPASSIGN[c0["name"]],
+                            (tgt, pv.op_tree(t["args"][1])))
+                    out.append({"bb": bi, "idx": len(b["stmts"]), "line": t["sp"][1], "lhs": lhs, "tree": tree,
+                                "whole": tree, "macro": t["sp"][4], "stmt": t, "opassign": True})
         if t["k"] == "call" and t["dest"]["proj"]:
             p = t["dest"]
             has_deref = any(e[0] == "deref" for e in p["proj"])
